@@ -18,6 +18,8 @@ import OV.Drivers.Loop
 * `C14 header <graph imports dom=ver;…|-> <funcs dom:ver:std|…  (std `-` = none) |-> <opset_version|-> <ir_version|-> <latest> <opset=ir;…> <maxIr>`
                                                                      → `<dom=ver;…> ir=<n>`   (`~` = empty domain)
 * `C14 fresh <model value names csv|-> <k>`                                → `<new names csv>`  (`apply_to_model` naming `k` new values)
+* `C14 vcnames <model value names csv|-> <k>`                              → `<new names csv> namefix=<0|1>`  (ConvertVersionPass call)
+* `C14 rowcover <rule> W=<csv> R2=<csv>`  (unions over all monitored try_rewrites of the run)  → `exact` | `slack:<why>` | `unknown`
 * `C14 castable <fn1 consts csv|-> <fn2 consts csv|-> <arg>`        → `castlike=<0|1> resets=<0|1>`
 -/
 namespace OV.Drivers.C14
@@ -248,6 +250,20 @@ def handle (args : List String) : String :=
     ";".intercalate (r.1.map (fun p => s!"{if p.1 == "" then "~" else p.1}={p.2}")) ++ s!" ir={r.2}"
   | ["fresh", names, k] =>
     showCsv (applyNames true [] (csv names) (k.toNat?.getD 0)).1
+  | ["vcnames", names, k] =>
+    let r := (convertPassCall false {} (csv names) (k.toNat?.getD 0)).1
+    s!"{showCsv r.1} namefix={b01 r.2}"
+  | ["rowcover", rule, w, r2] =>
+    match findRule rule with
+    | none => "unknown"
+    | some r =>
+      let W := csv (afterEq w)
+      let R2 := csv (afterEq r2)
+      let unseenW := r.checkMayWrite.filter (fun f => !W.contains f)
+      let unseenR := r.rewriteReads.filter (fun f => !R2.contains f)
+      if !unseenW.isEmpty then "slack:listed-write-never-observed:" ++ showCsv unseenW
+      else if !unseenR.isEmpty then "slack:listed-read-never-observed:" ++ showCsv unseenR
+      else "exact"
   | ["castable", c1, c2, arg] =>
     let resets := OV.Gen.C14Stash.converterFacts.resetFields.contains "_castable"
     s!"castlike={b01 (insertsCastLike (castableAfter resets (csv c1) (csv c2)) arg)} resets={b01 resets}"
